@@ -1,6 +1,7 @@
 (* C07 — well-formedness tests and scope structure agree with their definitions. *)
 From Coq Require Import List NArith ZArith Bool Relations.
 From PyD Require Import Base.Str Base.Graph Model.Hier Model.Mrs Proofs.MrsP.
+From PyD Require Import Proofs.DescFuel.
 Import ListNotations.
 
 (* connectedness = every predication is reachable from the first one in the
@@ -67,3 +68,14 @@ Theorem C07_dmrs_top_scope_exists : forall nodes links t,
   In t nodes -> exists c, dmrs_top_scope nodes links (Some t) = Some c.
 Proof. exact dmrs_top_scope_exists. Qed.
 Print Assumptions C07_dmrs_top_scope_exists.
+
+(* scope descendants and representatives always terminate: the fuel of the
+   model (one more than the number of predications) is never exhausted,
+   whatever cycles the handle constraints and labels form *)
+Theorem C07_descendants_total : forall m ids, ep_ids (m_rels m) = Some ids -> descendants m <> None.
+Proof. exact descendants_total. Qed.
+Print Assumptions C07_descendants_total.
+
+Theorem C07_representatives_total : forall m ids, ep_ids (m_rels m) = Some ids -> representatives m <> None.
+Proof. exact representatives_total. Qed.
+Print Assumptions C07_representatives_total.
